@@ -275,6 +275,16 @@ class Scenario:
                 pass
             else:
                 raise ValueError(f'bad scenario line {ln!r}')
+        if any(ln.split()[:1] == ['mode'] and ln.split()[2:3] == ['intree'] for ln in lines) and \
+                sum(1 for _, kind, _ in self.tree if kind == 'world') != 1:
+            raise ValueError('mode intree without the place of the world handle in the tree')
+        # a scripted reaction may only name declared classes (a shrunk scenario that lost a declaration is
+        # not a scenario)
+        for ops in self.reactions.values():
+            for op in ops:
+                cids = op[2].split(',') if op[0] == 'spawn' else op[2:3] if op[0] in ('add', 'remove') else []
+                if any(c.isdigit() and int(c) not in self.classes for c in cids):
+                    raise ValueError(f'reaction names an undeclared class: {op}')
 
     def name_table(self):
         return {n: (kind, p) for n, kind, p in self.names}
